@@ -181,8 +181,19 @@ RULE = ('CELLS: every crystal family from its Box constructor (generic parameter
         'plus malformed strings; arrays of quadruples with offending rows whose sums cancel; 11 leading shapes x 9 '
         'functions; family predicates on constructor cells and on '
         'duck-typed parameter sets and real Box objects near the isclose boundary of the tolerances asked for (keyword, '
-        'positional, swapped keyword order); fractional three-index vectors; distinct = distinct canonical driver line; '
-        'non-trivial = not the zero index vector / not an error case')
+        'positional, swapped keyword order); fractional three-index vectors. CALLER MEMORY: every function of the property '
+        'is called on index sets (with common factors, thirds, halves) held as int64 / int32 / float64 arrays that are '
+        'contiguous, rows / columns / every other row of a larger table, reversed (negative stride), Fortran-ordered, '
+        'read-only, or plain lists, with leading shapes (), (1,), (3,), (4,), (2,2): the whole allocation, shape/strides/dtype '
+        'and the Box are snapshotted bitwise before and after; the returned array is overwritten by the caller and the '
+        'identical call repeated (fromstring on repeated strings, all_indices(0..3), Box.vects/origin/reciprocal_vects '
+        'included); histories alloc / call on an input or on an earlier RESULT / caller write into any array, with the whole '
+        'memory compared with the model after each step. ALSO: fractional, float-held and huge (to 1e12; reduce_indices to '
+        '2^62) indices through the 3<->4 conversions, plane indices to 40, arrays of planes with one zero or non-integer row '
+        '(fractional parts cancelling within a row or across rows), limiting rhombohedral angles (60, 109.47, 70.53, 30, 119, '
+        '89, 91), hexagonal cells with c = a within tolerance and ideal c/a, all_indices(0), strings with commas / '
+        'typographic minus / swapped or unmatched brackets (model and code must both refuse); distinct = distinct canonical '
+        'driver line; non-trivial = not the zero index vector / not an error case')
 ASSUMPTIONS = [
     'the final division by numpy.linalg.norm is a positive scalar (the model returns the unnormalised exact normal; '
     'the harness normalises it in float)',
@@ -192,6 +203,10 @@ ASSUMPTIONS = [
     'Python float() numerals are modelled for the integer grammar only (sign, digits, surrounding blanks)',
     'Box.a..gamma (sqrt/arccos) are inputs of the family model: the measured six parameters are sent exactly '
     '(the search checks them against the exact Gram matrix of box.vects: params:lengths-angles)',
+    'numpy array semantics (views, strides, in-place operators, np.asarray not copying) are not modelled: the model '
+    'Mem says WHAT must hold of the caller\'s arrays (calls touch none, results are new); that the real functions '
+    'behave so is observed by the memory correspondence and the oracle clauses *:input-modified / *:result-not-fresh, '
+    'not proved',
     'the model object is told the state the real object reports after each setter (vects, origin, a..gamma); that the '
     'object reports what it was set to is checked separately (object:readback, entries the setter cleans to zero exempt)',
 ]
@@ -1086,7 +1101,8 @@ def correspond(ctx):
     for _ in range(ctx.n(100, 1000)):           # large integers / fractions through the 3 <-> 4 conversions
         t = [rng.randint(-10 ** 12, 10 ** 12) / rng.choice([1, 1, 2, 4, 8]) for _ in range(3)]
         r, e = _call(miller.vector3to4, t)
-        B.add('vector3to4:large', 'v34 ' + cm.frs(t), r, e, _cmp_close(1e-14, 1e-15), t)
+        # t = -(u'+v') cancels: its error is bounded by the roundings of u', v' (3 * 2^-53 * max|entry|), not by |t|
+        B.add('vector3to4:large', 'v34 ' + cm.frs(t), r, e, _cmp_close(1e-14, 4 * U * max(abs(x) for x in t) + 1e-15), t)
         r, e = _call(miller.plane3to4, np.array(t))
         B.add('plane3to4:large', 'p34 ' + cm.frs(t), r, e, _cmp_exact, t)
     for bad in ([2, 4], [2, 4, 6, 8, 10]):
@@ -1402,7 +1418,10 @@ def _corr_memory(ctx, rng, atol_s):
                 else:
                     for addr, ((shape, vals), cell) in enumerate(zip(snap, cells)):
                         model = cm.unfrs(cell.split(':', 1)[1]) if cell.split(':', 1)[1].strip() else []
-                        if len(model) != len(vals) or not cm.allclose(vals, model, 1e-13, 1e-13):
+                        # integers exact to well beyond this; thirds / Cartesian components: roundings of a short chain
+                        # of conversions, each bounded by a few 2^-53 of the largest entry of the array
+                        scale = max([1.0] + [abs(v) for v in vals])
+                        if len(model) != len(vals) or not cm.allclose(vals, model, 1e-13, 1e-13 * scale):
                             msg = (f'array a{addr} holds {vals}, in the model (calls touch no existing array, every result '
                                    f'is a new array) it holds {[float(x) for x in model]}')
                             break
@@ -2850,7 +2869,11 @@ MANIFEST = {
             'family-constructor parameter set; a cell rotated by a proper rotation R has vectors and plane normals rotated by R '
             '(normal of a rotated cubic cell = (h,k,l).R), mirrored cells flip the normal; the Box OBJECT (vects, origin, '
             'reciprocal cache, setters) answers from its current cell only, its reciprocal cache is valid after any history, '
-            'vectors/normals/family ignore the origin and a vector is a difference of positions. The model is tied to the code by an exhaustive differential run (all index triples to the bound, '
+            'vectors/normals/family ignore the origin and a vector is a difference of positions; an array of planes is '
+            'accepted iff every row is a plane on its own; in the model of the CALLER\'s memory (arrays by address; alloc, call, '
+            'caller write) a call changes no existing array, stores f(contents of the argument) at a fresh address, and '
+            'call -> caller overwrites the result -> identical call returns the identical value (true by construction in a '
+            'functional model; tied to numpy by running the same histories on real int/float arrays and views). The model is tied to the code by an exhaustive differential run (all index triples to the bound, '
             'cells of every family in four orientations with non-zero origins, one model object and one real object taken '
             'through the same setter histories, strings, boundary parameter sets).',
     'note': 'Trusted: Lean kernel + propext/Classical.choice/Quot.sound; the table translator (harness/props/c16.py); numpy '
